@@ -413,6 +413,25 @@ def rand_transform(rng):
     return ' '.join(fs)
 
 
+def shaped_viewbox(rng, w, h):
+    """viewBox whose SIZE is in a special relation to the viewport size (w, h), always with a non-zero origin: equal, same
+    aspect, swapped, off by a tiny amount - the places where a 'nothing to fit' shortcut would be tempting"""
+    ox = rng.choice([-20.0, 30.0, 12.5, -7.25])
+    oy = rng.choice([-20.0, 10.0, -3.5, 40.0])
+    r = rng.below(5)
+    if r == 0:
+        return [ox, oy, w, h], 'equal'
+    if r == 1:
+        k = rng.choice([2.0, 0.5, 4.0, 0.25])
+        return [ox, oy, w * k, h * k], 'same-aspect'
+    if r == 2:
+        return [ox, oy, h, w], 'swapped'
+    if r == 3:
+        e = rng.choice([1.0 + 2.0 ** -10, 1.0 - 2.0 ** -12, 1.0 + 2.0 ** -16])
+        return [ox, oy, w * e, h], 'tiny-diff'
+    return [ox, oy, w, h * rng.choice([2.0, 0.5])], 'one-side-equal'
+
+
 def gen_use_doc(rng, nth):
     """document with use chains over every target kind"""
     root = N('svg', {'width': '200', 'height': '200', 'viewBox': '0 0 200 200'})
@@ -860,6 +879,7 @@ def run_k(ctx, binp, T, quick):
     # ---------------------------------------------------------------- use-convert (viewport of symbol / nested svg)
     cases = []
     n = 240 if quick else 1500
+    shapes_hist = {}
     for i in range(n):
         kind = ['symbol', 'svg'][i % 2]
         vb = [dy(rng, -40, 40), dy(rng, -40, 40), dy(rng, 8, 200), dy(rng, 8, 200)] if rng.below(5) > 0 else None
@@ -874,6 +894,12 @@ def run_k(ctx, binp, T, quick):
         sw_, sh_ = dy(rng, 10, 180), dy(rng, 10, 180)          # the nested svg's own size
         sx, sy = (dy(rng, -10, 30), dy(rng, -10, 30)) if kind == 'svg' else (0.0, 0.0)
         tm = [rng.choice([1.0, 2.0, 0.5]), 0.0, 0.0, rng.choice([1.0, 1.5]), dy(rng, -10, 20), dy(rng, -10, 20)] if rng.below(2) else None
+        if pw is None and ph is None and i % 3 == 0:
+            # viewBox size in a special relation to the resolved viewport size (equal, same aspect, swapped, tiny difference)
+            rw_ = (uw if uw is not None else (VIEW if kind == 'symbol' else sw_))
+            rh_ = (uh if uh is not None else (VIEW if kind == 'symbol' else sh_))
+            vb, shape_ = shaped_viewbox(rng, rw_, rh_)
+            shapes_hist[shape_] = shapes_hist.get(shape_, 0) + 1
         a = ''
         if vb:
             a += ' viewBox="%s"' % ' '.join(fnum(v) for v in vb)
@@ -924,6 +950,7 @@ def run_k(ctx, binp, T, quick):
         items.append("(%s, %s)" % (e, coq_ts(pr[0][1])))
         idx.append(i)
     ctx.cov['use_convert_cases'] = len(cases)
+    ctx.cov['use_convert_viewbox_shapes'] = shapes_hist
     if cases:
         ctx.add_sample(dict(op='use-convert', doc=cases[0][0]))
     if items:
@@ -1105,10 +1132,17 @@ def run_k(ctx, binp, T, quick):
             a += ' transform="translate(%s %s)"' % (fnum(tt[0]), fnum(tt[1]))
         if ov:
             a += ' overflow="%s"' % ov
+        vbq = 'None'
+        if i % 2 == 0:
+            vb, _ = shaped_viewbox(rng, w, h) if i % 4 == 0 else ([dy(rng, -30, 30), dy(rng, -30, 30), dy(rng, 10, 150), dy(rng, 10, 150)], '')
+            al, sl = rng.choice(ALIGNS), bool(rng.below(2))
+            a += ' viewBox="%s" preserveAspectRatio="%s"' % (' '.join(fnum(v) for v in vb), al if al == 'none' else al + (' slice' if sl else ' meet'))
+            vbq = ("(Some {| vb_rect := {| rx := %s; ry := %s; rw := %s; rh := %s |}; vb_aspect := {| ar_align := %s; ar_slice := %s |} |})"
+                   % (qstr(vb[0]), qstr(vb[1]), qstr(vb[2]), qstr(vb[3]), COQ_ALIGN[al], 'true' if sl else 'false'))
         d = '<svg %s width="200" height="200"><svg%s><rect id="probe" width="10" height="10"/></svg></svg>' % (NS, a)
         st = "{| g_opacity := %s; g_blend := 0%%N; g_isolate := false; g_clip := None; g_mask := None; g_filter := [] |}" % qstr(op if op is not None else 1.0)
-        e = "(leaves_of (convert_nested_svg %s %s (from_translate %s %s) %s [TLeaf 1%%N 0%%N]))" % (
-            ("(from_translate %s %s)" % (qstr(tt[0]), qstr(tt[1]))) if tt else 'ts_identity', st, qstr(x), qstr(y),
+        e = "(leaves_of (convert_nested_svg %s %s (viewport_ts ts_identity %s %s %s {| sw := %s; sh := %s |}) %s [TLeaf 1%%N 0%%N]))" % (
+            ("(from_translate %s %s)" % (qstr(tt[0]), qstr(tt[1]))) if tt else 'ts_identity', st, qstr(x), qstr(y), vbq, qstr(w), qstr(h),
             '(Some 1%N)' if ov != 'visible' else 'None')
         ncases.append((d, e))
     outs = ctx.rvh_batch(binp, 'dump', ["-\t" + d for d, _ in ncases])
@@ -1236,6 +1270,51 @@ def run_e2e(ctx, binp, T, n):
         # gzip vs plain
         doc = gen_use_doc(rng, i).ser(True)
         add('gzip', 'hex:' + hexs(gzip.compress(doc.encode(), compresslevel=rng.choice([1, 6, 9]), mtime=0)), doc)
+    # viewports whose viewBox size is in a special relation to the viewport size (non-zero origin)
+    for i in range(max(12, n // 4)):
+        W, H = dy(rng, 20, 150), dy(rng, 20, 150)
+        vb, shape_ = shaped_viewbox(rng, W, H)
+        al = rng.choice(ALIGNS)
+        par = al if al == 'none' else al + rng.choice(['', ' meet', ' slice'])
+        va = {'viewBox': ' '.join(fnum(v) for v in vb), 'preserveAspectRatio': par}
+        if rng.below(2):
+            va['overflow'] = rng.choice(['visible', 'hidden'])
+        root = N('svg', {'width': '200', 'height': '200', 'viewBox': '0 0 200 200'})
+        kids = [rand_leaf(rng, 0) for _ in range(1 + rng.below(2))]
+        k = i % 3
+        if k == 0:       # nested svg
+            root.kids.append(N('svg', dict(va, x=fnum(dy(rng, 0, 40)), y=fnum(dy(rng, 0, 40)), width=fnum(W), height=fnum(H)), kids))
+        elif k == 1:     # use -> symbol with the use's size
+            root.kids.append(N('defs', {}, [N('symbol', dict(va, id='sy'), kids)]))
+            root.kids.append(N('use', {'xlink:href': '#sy', 'id': 'u', 'x': fnum(dy(rng, 0, 40)), 'y': fnum(dy(rng, 0, 40)),
+                                       'width': fnum(W), 'height': fnum(H)}))
+        else:            # use -> svg, size partly from the use
+            root.kids.append(N('defs', {}, [N('svg', dict(va, id='ns', width=fnum(W), height=fnum(dy(rng, 20, 150))), kids)]))
+            root.kids.append(N('use', {'xlink:href': '#ns', 'id': 'u', 'x': fnum(dy(rng, 0, 40)), 'height': fnum(H)}))
+        add('viewport-' + shape_, root.ser(True), Expander(root).document().ser(True))
+    # highly compressible input: deflate ratios far above what ordinary documents reach
+    ratios = []
+    for i in range(6 if n <= 300 else 24):
+        pad = rng.choice([150000, 400000, 1000000] if n <= 300 else [150000, 400000, 1000000, 2500000, 4000000])
+        junk = ''.join('%016x' % rng.next() for _ in range(rng.choice([0, 20, 120, 400])))
+        k = i % 3
+        if k == 0:
+            body = '<!--%s %s-->' % (junk, 'a' * pad) + '<rect width="10" height="10"/>'
+        elif k == 1:
+            body = '<rect width="10" height="10"/>' + ' ' * pad + '<!--%s--><circle r="5"/>' % junk
+        else:
+            reps = min(3000, pad // 60)
+            body = '<!--%s-->' % junk + '<rect x="1" y="2" width="10" height="10" fill="red"/>' * reps
+        doc = '<svg %s width="200" height="200">%s</svg>' % (NS, body)
+        gz = gzip.compress(doc.encode(), compresslevel=9, mtime=0)
+        while len(doc) < 150 * len(gz) and len(doc) < 6000000:
+            doc = doc.replace('</svg>', '<!--%s--></svg>' % ('b' * len(doc)))      # more padding until the ratio is above 150:1
+            gz = gzip.compress(doc.encode(), compresslevel=9, mtime=0)
+        if len(gz) > 65536 or len(doc) < 150 * len(gz):
+            continue
+        ratios.append(round(len(doc) / float(len(gz)), 1))
+        add('gzip-compressible', 'hex:' + hexs(gz), doc)
+    ctx.cov['gzip_ratios'] = sorted(ratios)
     for _ in range(max(2, n // 20)):
         for cls, a, b, desc in known_scenarios(rng):
             add(desc, a, b, cls=cls)
@@ -1351,7 +1430,7 @@ def run(ctx):
         "documents (targets: shape, g, svg, symbol, image, text, use; chains to depth 4; with/without x, y, width, height, transform, "
         "viewBox, preserveAspectRatio, overflow) vs full expansion; rect / circle / ellipse / line / polyline / polygon (percent units, "
         "one-sided / negative / oversize radii) vs paths; relative / shorthand / implicit path commands vs absolute; transform lists of "
-        "1-4 functions and transform-origin vs matrix(); a vs g; switch vs first passing child; gzip vs plain.  Distinct by document text; "
+        "1-4 functions and transform-origin vs matrix(); a vs g; switch vs first passing child; gzip vs plain, incl. highly compressible input (deflate ratios 150:1 .. 1000:1, up to 4 MB of text); viewports whose viewBox size equals / is proportional to / is swapped with / differs minimally from the viewport size, non-zero origin.  Distinct by document text; "
         "non-trivial = the tree has at least one leaf.")
 
 
